@@ -169,20 +169,28 @@ func (w *world) projectEvent(js []byte, kind string) AbsEv {
 	if s, ok := servers[e.Ssrv]; ok && validSigBy(w.impl, js, s) {
 		e.Sig = "valid"
 	}
-	e.Auth = "nocreate"
-	if domainless(string(w.ver)) {
-		e.Auth = "good"
-	} else {
-		gjson.GetBytes(js, "auth_events").ForEach(func(_, v gjson.Result) bool {
-			id := v.String()
-			if v.IsArray() && len(v.Array()) > 0 {
-				id = v.Array()[0].String()
-			}
-			if id == w.create.EventID() {
-				e.Auth = "good"
-			}
-			return true
-		})
+	// what the event's own auth_events cover: "full" create and A's membership, "base" create only, "nocreate"
+	hasCreate, hasA := domainless(string(w.ver)), false
+	gjson.GetBytes(js, "auth_events").ForEach(func(_, v gjson.Result) bool {
+		id := v.String()
+		if v.IsArray() && len(v.Array()) > 0 {
+			id = v.Array()[0].String()
+		}
+		if id == w.create.EventID() {
+			hasCreate = true
+		}
+		if a := w.members[userA]; a != nil && id == a.EventID() {
+			hasA = true
+		}
+		return true
+	})
+	switch {
+	case !hasCreate:
+		e.Auth = "nocreate"
+	case hasA:
+		e.Auth = "full"
+	default:
+		e.Auth = "base"
 	}
 	return e
 }
